@@ -410,6 +410,9 @@ structure Facts where
   listenerReadsTouchUnderLock : Tri
   /-- SummonSwamp hands the instance out with its vigil already taken, under the lock the close decision holds -/
   summonTakesVigil : Tri
+  /-- (not used by `classify`; the schedule driver uses it) SaveFunction drops a queued delete marker when a key
+      is re-created and deleteHandler queues a marker only for an object that has a file pointer -/
+  recreateDropsDeleteMarker : Tri
   deriving Repr
 
 def cfgOf (f : Facts) : Cfg :=
